@@ -419,6 +419,17 @@ where
     loop {
         interval.tick().await;
 
+        // Verification builds run on tokio's paused clock, where the watcher below (which
+        // measures real time) would spin for five real seconds: expire on simulated time.
+        #[cfg(datacake_verif)]
+        if !watcher.is_done() && start.elapsed() > KEYSPACE_SYNC_TIMEOUT {
+            removal_task.await??;
+            return Err(anyhow!(
+                "Task timed out and could not be completed. Took {:?}",
+                start.elapsed()
+            ));
+        }
+
         if watcher.has_expired() {
             warn!(total_time = ?start.elapsed(), "Storage task took too long to complete and has been left to run.");
             removal_task.await??;
